@@ -119,6 +119,8 @@ def h_completion(c):
     coefs = dec(c["coefs"])
     if c.get("complex"):
         coefs = numpy.array(coefs, dtype=complex)
+    elif c.get("as_list"):
+        coefs = [float(x) for x in coefs]
     else:
         coefs = numpy.array(coefs, dtype=float)
     kw = {}
